@@ -204,9 +204,10 @@ func opMerge(r *rand.Rand, n int) {
 func opClientListOffsets(seed int64, n int) {
 	r := rand.New(rand.NewSource(seed))
 	c := fakecluster.New()
-	nb := 2 + r.Intn(3)
-	for id := 0; id < nb; id++ {
-		b := c.AddBroker(int32(id))
+	ids, boot := fakecluster.PickBrokers(r, 2, 4)
+	nb := len(ids)
+	for _, id := range ids {
+		b := c.AddBroker(id)
 		if r.Intn(2) == 0 {
 			lo := int16(1 + r.Intn(5))
 			b.Versions = map[protocol.ApiKey]fakecluster.VRange{protocol.ListOffsets: {Min: int16(r.Intn(2)), Max: lo}}
@@ -214,7 +215,11 @@ func opClientListOffsets(seed int64, n int) {
 	}
 	downID := int32(-1)
 	if r.Intn(2) == 0 {
-		downID = int32(1 + r.Intn(nb-1)) // never the bootstrap broker 0
+		for _, id := range ids { // never the bootstrap broker
+			if id != boot {
+				downID = id
+			}
+		}
 		c.Brokers[downID].Down = true
 	}
 	known := names[:8]
@@ -222,7 +227,7 @@ func opClientListOffsets(seed int64, n int) {
 		t := &fakecluster.Topic{Parts: map[int32]*fakecluster.Part{}}
 		for p := int32(0); p < 4; p++ {
 			first := int64(r.Intn(50))
-			part := &fakecluster.Part{Leader: int32(r.Intn(nb)), First: first, Last: first + int64(r.Intn(100))}
+			part := &fakecluster.Part{Leader: ids[r.Intn(nb)], First: first, Last: first + int64(r.Intn(100))}
 			for k, off := 0, first; k < r.Intn(5); k++ {
 				part.Times = append(part.Times, fakecluster.TimeIndex{Timestamp: int64(1000 + k*700 + r.Intn(600)), Offset: off})
 				off += int64(1 + r.Intn(10))
@@ -236,7 +241,7 @@ func opClientListOffsets(seed int64, n int) {
 	}
 	tr := &kafka.Transport{Dial: c.Dial, MetadataTTL: time.Second}
 	defer func() { tr.CloseIdleConnections(); c.Close() }()
-	cl := &kafka.Client{Addr: kafka.TCP(c.Brokers[0].Addr()), Transport: tr, Timeout: 5 * time.Second}
+	cl := &kafka.Client{Addr: kafka.TCP(c.Brokers[boot].Addr()), Transport: tr, Timeout: 5 * time.Second}
 	for i := 0; i < n; i++ {
 		ts := randomReq(r, 4)
 		// Client.ListOffsets takes a map: merge duplicate topic entries
